@@ -2,6 +2,7 @@ package main
 
 import (
 	"fmt"
+	"go/token"
 	"go/types"
 	"sort"
 	"strings"
@@ -116,6 +117,15 @@ func shortName(key string) string {
 func (e *Enc) call(site ssa.Instruction, cc *ssa.CallCommon, rt types.Type) Value {
 	// builtins
 	if b, ok := cc.Value.(*ssa.Builtin); ok {
+		if e.fc != nil && len(e.fc.AtCalls) > 0 {
+			var bargs []Value
+			var btypes []types.Type
+			for _, a := range cc.Args {
+				bargs = append(bargs, e.val(a))
+				btypes = append(btypes, a.Type())
+			}
+			e.atCallAsserts(site, "builtin:"+b.Name(), bargs, btypes)
+		}
 		return e.builtin(site, b, cc, rt)
 	}
 	var args []Value
@@ -764,9 +774,8 @@ func (e *Enc) atCallAsserts(site ssa.Instruction, key string, args []Value, argT
 		if !strings.HasSuffix(key, ac.Callee) {
 			continue
 		}
-		// ordinal counts calls matching this clause's callee pattern
-		e.atOrdPat[ac.Callee+"@"+fmt.Sprint(i)]++
-		if e.atOrdPat[ac.Callee+"@"+fmt.Sprint(i)] != ac.Ord {
+		// the ordinal counts the call sites matching this clause's callee pattern in source order
+		if e.siteOrdinal(site, ac.Callee) != ac.Ord {
 			continue
 		}
 		ac.Used = true
@@ -819,4 +828,73 @@ func (e *Enc) callCount(h *HeapState, suffix string) Term {
 		return ts[0]
 	}
 	return app(SInt, "+", ts...)
+}
+
+// callKeyOf computes the callee key of a call instruction the same way call() does (static part only).
+func callKeyOf(cc *ssa.CallCommon) string {
+	if b, ok := cc.Value.(*ssa.Builtin); ok {
+		return "builtin:" + b.Name()
+	}
+	if cc.IsInvoke() {
+		return "(" + typeKey(cc.Value.Type()) + ")." + cc.Method.Name()
+	}
+	if f := cc.StaticCallee(); f != nil {
+		if o, ok := f.Object().(*types.Func); ok {
+			return funcKey(o)
+		}
+		if f.Origin() != nil {
+			if o, ok := f.Origin().Object().(*types.Func); ok {
+				return funcKey(o)
+			}
+		}
+		return f.String()
+	}
+	if n, ok := cc.Value.Type().(*types.Named); ok {
+		return "dyn:" + n.Obj().Name()
+	}
+	return "dynamic call"
+}
+
+// siteOrdinal: 1-based position of `site` among the call sites of the function whose callee key ends
+// with `pattern`, ordered by source position.
+func (e *Enc) siteOrdinal(site ssa.Instruction, pattern string) int {
+	type cs struct {
+		in  ssa.Instruction
+		pos token.Pos
+		ord int
+	}
+	var sites []cs
+	n := 0
+	for _, b := range e.fn.Blocks {
+		for _, in := range b.Instrs {
+			var cc *ssa.CallCommon
+			switch x := in.(type) {
+			case *ssa.Call:
+				cc = &x.Call
+			case *ssa.Defer:
+				cc = &x.Call
+			case *ssa.Go:
+				cc = &x.Call
+			}
+			if cc == nil {
+				continue
+			}
+			if strings.HasSuffix(callKeyOf(cc), pattern) {
+				n++
+				sites = append(sites, cs{in, in.Pos(), n})
+			}
+		}
+	}
+	sort.SliceStable(sites, func(i, j int) bool {
+		if sites[i].pos != sites[j].pos {
+			return sites[i].pos < sites[j].pos
+		}
+		return sites[i].ord < sites[j].ord
+	})
+	for i, s := range sites {
+		if s.in == site {
+			return i + 1
+		}
+	}
+	return 0
 }
